@@ -201,9 +201,9 @@ def rule_placeholder(cx, tier):
     r.analysed = {"functions": len(insts), "push_offset_placeholder_sites": n_create,
                   "update_offset_placeholder_sites": n_update, "push_loop_jump_placeholder_sites": n_loop,
                   "wrappers_returning_a_placeholder": wrappers}
-    r.floor("push_offset_placeholder call sites", n_create, 25)
-    r.floor("update_offset_placeholder call sites", n_update, 18)
-    r.floor("push_loop_jump_placeholder call sites", n_loop, 6)
+    r.floor("push_offset_placeholder call sites", n_create, 18)
+    r.floor("update_offset_placeholder call sites", n_update, 13)
+    r.floor("push_loop_jump_placeholder call sites", n_loop, 4)
     require(any(w.endswith("compile_check_type") for w in wrappers), "R-PLACEHOLDER: compile_check_type is no longer "
             "recognised as a wrapper returning a placeholder")
     colls_seen = set()
@@ -238,7 +238,7 @@ def rule_placeholder(cx, tier):
                   "collections": sorted(_coll_name(fn, k) for k in res["collections"]), "states": res["states"],
                   "verdict": "violation" if res["bad"] else ("undecided" if res["undecided"] else "ok")}, limit=40)
     r.analysed["collections"] = len(colls_seen)
-    r.floor("placeholder collections", len(colls_seen), 8)
+    r.floor("placeholder collections", len(colls_seen), 6)
     return r
 
 
@@ -665,7 +665,7 @@ def rule_match_target(cx, tier):
                         r.add(Finding("R-MATCH-TARGET", fn.qual, "nested:is_last_alternative-not-forwarded",
                                       "a nested MatchArmParameters is built without forwarding params.is_last_alternative",
                                       fn.file, line_of(fn, b.idx)))
-    r.floor("filings in jumps.arm_end", per_field["arm_end"], 5)
-    r.floor("filings in jumps.alternative_end", per_field["alternative_end"], 5)
+    r.floor("filings in jumps.arm_end", per_field["arm_end"], 3)
+    r.floor("filings in jumps.alternative_end", per_field["alternative_end"], 3)
     r.analysed = {"routines": [f.qual.rsplit("::", 1)[-1] for f in subjects], **per_field}
     return r
